@@ -734,6 +734,15 @@ def h_isclose(I, a, k, st, n):
     return _ew2(f, a[0], a[1], st)
 
 
+def h_take(I, a, k, st, n):
+    """np.take(a, indices) of a 1-D array is a[indices]; with out= the gathered values are also what the out array holds afterwards
+    (which names share that array is the alias analysis' business, not the value's)."""
+    if len(a) < 2 or k.get("axis") is not None or len(a) > 2: return Opaque("np.take(axis=)")
+    A = as_arr(a[0]) if isinstance(a[0], (Arr, ArrParam)) else (_arr(a[0], st) if isinstance(a[0], LocalArr) else None)
+    if A is None or is_opaque(A) or A.ndim != 1: return Opaque("np.take of a non 1-D array")
+    return lm.subscript_value(I, a[0], (a[1],), st)
+
+
 def h_squeeze(I, a, k, st, n):
     """np.squeeze drops every axis of length 1 (an axis of symbolic length is a generic one and stays)."""
     o = a[0]
@@ -878,6 +887,7 @@ _reg("numpy.pad", h_pad)
 _reg("numpy.correlate", h_correlate)
 _reg("numpy.allclose", h_allclose)
 _reg("numpy.squeeze", h_squeeze)
+_reg("numpy.take", h_take)
 _reg("numpy.broadcast_to", h_broadcast_to)
 _reg("scipy.signal.correlate", lambda I, a, kw, st, n: h_correlate(I, a, dict({"mode": a[2] if len(a) > 2 else "full"}, **kw), st, n))
 for _nm in ("numpy.convolve", "scipy.signal.convolve", "scipy.signal.fftconvolve", "scipy.signal.oaconvolve"): _reg(_nm, h_convolve)
